@@ -87,6 +87,9 @@ def keysOf (toks : List String) : Option (List String) :=
 inductive Mach where
   | ring (s : MState Float)
   | reducer (inplace : Bool) (ca : Bool) (s : MState Float × Flags)
+  /-- after a REJECTED load: torch loads non-atomically (extras and matching tensors are already
+  copied when the error is raised); that state is outside the model -/
+  | poisoned
 
 inductive Ckpt where
   | ring (d : Dict Float) (src : MState Float)
@@ -130,6 +133,7 @@ def showStoreF : Store (Ring (List Float)) → String
 def showMach : Mach → String
   | .ring s => showStoreF s.2
   | .reducer _ ca s => showStoreF s.1.2 ++ s!";initial={sBool s.2.initial}" ++ (if ca then s!";count={s.2.count}" else "")
+  | .poisoned => "after-failed-load"
 
 /-- obs token `<shape>;<vals>` -/
 def parseObsF? (s : String) : Option (Obs Float) :=
@@ -170,6 +174,7 @@ def machStep (m : Mach) (toks : List String) : Option (Mach × String) :=
       let op ← parseRedOp? toks
       let (s', o) := reducerStep EF ip (foldOf ca) s op
       some (.reducer ip ca s', showOutF o)
+  | .poisoned => some (.poisoned, "after-failed-load")
 
 def showErr : LoadErr → String
   | .unexpected k => "unexpected:" ++ k
@@ -216,17 +221,20 @@ def dstep (st : DState) (line : String) : DState × String :=
     match st.machs.lookup id with
     | some (.ring s, _) => ({ st with ckpt := .ring (ringSave "rec" s) s }, "ok")
     | some (.reducer _ _ s, _) => ({ st with ckpt := .reducer ((reducerComp Float).save s) s }, "ok")
+    | some (.poisoned, _) => (st, "after-failed-load")
     | none => (st, "bad-op")
   | ["load", id] =>
     match st.machs.lookup id, st.ckpt with
     | some (.ring t, _), .ring d src =>
       match ringLoad "rec" d t with
       | .ok t' => ({ st with machs := setMach st.machs id (.ring t', .ring src) }, "ok")
-      | .error es => (st, "err " ++ ",".intercalate (sortStrs (es.map showErr)))
+      | .error es => ({ st with machs := setMach st.machs id (.poisoned, .poisoned) },
+                      "err " ++ ",".intercalate (sortStrs (es.map showErr)))
     | some (.reducer ip ca t, _), .reducer d src =>
       match (reducerComp Float).load d t with
       | .ok t' => ({ st with machs := setMach st.machs id (.reducer ip ca t', .reducer ip ca src) }, "ok")
-      | .error es => (st, "err " ++ ",".intercalate (sortStrs (es.map showErr)))
+      | .error es => ({ st with machs := setMach st.machs id (.poisoned, .poisoned) },
+                      "err " ++ ",".intercalate (sortStrs (es.map showErr)))
     | _, _ => (st, "bad-op")
   | ["dump", id] =>
     match st.machs.lookup id with
